@@ -291,7 +291,11 @@ func RunOne(scn Scenario, tmpl, dir string, tr int, seed int64, choices []string
 					continue
 				}
 				// the proc may be about to arrive (it was briefly waiting for a harness lock): wait for it
-				if p, ok := procs[chosen]; ok && !p.Done && diverge < 40 {
+				waitLimit := 40
+				if scn.Lenient {
+					waitLimit = 4 // a lenient schedule names requests that the code may rightly keep waiting (a lock): do not wait long for them
+				}
+				if p, ok := procs[chosen]; ok && !p.Done && diverge < waitLimit {
 					diverge++
 					time.Sleep(time.Duration(diverge) * time.Millisecond)
 					lockBlocked[chosen] = true
